@@ -293,6 +293,133 @@ func runReceiptScenario(c *check.Ctx, bin, mode string, nConn int, cases []recei
 	}
 }
 
+// runReceiptBurst: nConn connections pipeline their receipts without waiting
+// for answers (many submissions are in the queue, in verification and being
+// forwarded at the same time), then a barrier each. Every submission gets
+// exactly one answer; a valid triple answered "accepted" is POSTed exactly
+// once and unchanged, every other one never.
+func runReceiptBurst(c *check.Ctx, bin string, nConn, per int, st *c19stats, mu *sync.Mutex) {
+	const trig = "pipelined-burst"
+	ncs, err := fakes.NewNCS("ok")
+	if err != nil {
+		c.Inconc(err.Error())
+		return
+	}
+	defer ncs.Close()
+	p, err := c.WS.StartLab(bin, sut.LabOpts{NCS: ncs.URL(), Name: "rcptburst"})
+	if err != nil {
+		c.Inconc(err.Error())
+		return
+	}
+	defer p.Kill()
+	type sub struct {
+		rc       receiptCase
+		id       uint32
+		accepted bool
+		answers  int
+	}
+	all := make([][]*sub, nConn)
+	var wg sync.WaitGroup
+	start := make(chan struct{})
+	for ci := 0; ci < nConn; ci++ {
+		cases := receiptCases(rand.New(rand.NewSource(c.Seed*977+int64(ci))), fmt.Sprintf("b%d", ci), per)
+		wg.Add(1)
+		go func(ci int) {
+			defer wg.Done()
+			defer func() {
+				if r := recover(); r != nil {
+					c.Inconc(fmt.Sprint("C19 burst: ", r))
+				}
+			}()
+			cl := scen.MustDial(p, "vod")
+			defer cl.Close()
+			<-start
+			byID := map[uint32]*sub{}
+			for _, rc := range cases {
+				s := &sub{rc: rc, id: cl.NextReqID()}
+				all[ci] = append(all[ci], s)
+				byID[s.id] = s
+				if err := cl.Send(&hagallpb.ReceiptRequest{Type: d.TReceiptReq, Timestamp: d.NewTag(), RequestId: s.id, Receipt: rc.Receipt, Hash: rc.Hash, Signature: rc.Sig}); err != nil {
+					c.Report(c19f("answer/connection-blocked-or-ended", trig, "pipelining receipts: %v", err))
+					return
+				}
+			}
+			win, err := cl.Barrier()
+			if err != nil {
+				c.Report(c19f("answer/connection-blocked-or-ended", trig, "after %d pipelined receipts the connection barrier failed: %v", len(cases), err))
+				return
+			}
+			for _, e := range win {
+				switch m := e.M.(type) {
+				case *hagallpb.ReceiptResponse:
+					if s := byID[m.RequestId]; s != nil {
+						s.answers++
+						s.accepted = true
+					}
+				case *hagallpb.ErrorResponse:
+					if s := byID[m.RequestId]; s != nil {
+						s.answers++
+						if m.Code == 503 {
+							mu.Lock()
+							st.tooBusy++
+							mu.Unlock()
+						}
+					}
+				}
+			}
+		}(ci)
+	}
+	close(start)
+	wg.Wait()
+	if !awaitForwards(p) {
+		c.Inconc("C19 burst: forwarding goroutines did not finish")
+		return
+	}
+	byText := map[string][]fakes.Post{}
+	for _, po := range ncs.Posts() {
+		byText[po.Receipt] = append(byText[po.Receipt], po)
+	}
+	mu.Lock()
+	defer mu.Unlock()
+	st.forwarded += len(ncs.Posts())
+	for _, subs := range all {
+		for _, s := range subs {
+			st.submitted++
+			st.answered += s.answers
+			rc := s.rc
+			if rc.EmptyField {
+				st.empty++
+			} else if rc.Valid {
+				st.valid++
+			} else {
+				st.invalid++
+			}
+			if s.answers != 1 {
+				c.Report(c19f("answer/exactly-once", trig, "a pipelined %s submission got %d answers", rc.Name, s.answers))
+				continue
+			}
+			if rc.Receipt == "" {
+				continue
+			}
+			got := byText[rc.Receipt]
+			switch {
+			case !rc.Valid && len(got) > 0:
+				c.Report(c19f("forward/invalid-receipt-forwarded", rc.Name, "pipelined burst: the %s triple (receipt %q) fails the independent check but was POSTed", rc.Name, rc.Receipt))
+			case rc.Valid && s.accepted && len(got) == 0:
+				c.Report(c19f("forward/valid-receipt-not-forwarded", trig, "the valid receipt %q, submitted in a burst from %d connections, was answered accepted but never POSTed to the (reachable) credit service", rc.Receipt, nConn))
+			case rc.Valid && len(got) > 1:
+				c.Report(c19f("forward/more-than-once", trig, "the receipt %q was POSTed %d times", rc.Receipt, len(got)))
+			case rc.Valid && !s.accepted && len(got) > 0:
+				c.Report(c19f("forward/refused-receipt-forwarded", trig, "the receipt %q was refused (queue full) and POSTed all the same", rc.Receipt))
+			case rc.Valid && len(got) == 1:
+				if !bytes.Equal(got[0].Hash, rc.Hash) || !bytes.Equal(got[0].Signature, rc.Sig) {
+					c.Report(c19f("forward/altered", trig, "the receipt %q was forwarded with hash %x signature %x, submitted %x %x", rc.Receipt, got[0].Hash, got[0].Signature, rc.Hash, rc.Sig))
+				}
+			}
+		}
+	}
+}
+
 // queueFull: G11 - the verifier is held at VerifyPayload so that the queue
 // (128) fills deterministically; the submitters must be told too-busy and must
 // not block.
@@ -414,6 +541,10 @@ func partReceipts(c *check.Ctx, a *acc) {
 	parallel(len(scs), len(scs), func(i int) {
 		runReceiptScenario(c, bin, scs[i].mode, scs[i].conns, allCases[i], st, &mu)
 	})
+	runReceiptBurst(c, bin, 8, c.Pick(57, 190), st, &mu)
+	if !c.Quick() {
+		runReceiptBurst(c, bin, 16, 95, st, &mu)
+	}
 	gateReached := queueFull(c, bin, st)
 	c.Coverage["receipts_submitted"] = st.submitted
 	c.Coverage["receipts_answered"] = st.answered
